@@ -34,6 +34,7 @@ import (
 
 	"github.com/emersion/go-imap/v2"
 	"github.com/emersion/go-imap/v2/imapclient"
+	"github.com/emersion/go-sasl"
 
 	"verif/harness/vh"
 )
@@ -72,6 +73,7 @@ type world struct {
 	gating  bool
 	cl      *imapclient.Client
 	srv     *vh.Conn
+	cli     *vh.Conn // the client's end
 	br      *bufio.Reader
 	dbg     *parker
 }
@@ -200,7 +202,7 @@ func (w *world) waitArrival(p int, point string, d time.Duration) (arrival, bool
 func newWorld(gating bool) (*world, error) {
 	c, s := vh.NewConnPair()
 	w := &world{procOf: map[int64]int{}, inClose: map[int]bool{}, release: map[int]chan struct{}{}, arrived: map[int]arrival{},
-		gating: gating, srv: s, br: bufio.NewReader(s), dbg: &parker{}}
+		gating: gating, srv: s, cli: c, br: bufio.NewReader(s), dbg: &parker{}}
 	w.cond = sync.NewCond(&w.mu)
 	curMu.Lock()
 	current = w
@@ -693,6 +695,11 @@ func autoServer(w *world, stop chan struct{}, rng *rand.Rand, killAfter int) {
 			w.srv.Close()
 			return
 		}
+		if strings.Contains(line, " AUTHENTICATE ") {
+			// no initial response: the credentials follow the continuation request
+			w.srv.Write([]byte("+ \r\n"))
+			w.br.ReadString('\n')
+		}
 		if strings.Contains(line, "FETCH") {
 			w.srv.Write([]byte("* 1 FETCH (FLAGS (\\Seen))\r\n"))
 		}
@@ -750,6 +757,10 @@ func cmdStress(path string, seed int64, rounds int) {
 		if mode == 1 {
 			kill = 1 + rng.Intn(12)
 		}
+		if rng.Intn(3) == 0 {
+			// writes that return late: the peer has read and answered by the time the writer goes on
+			w.cli.SetWriteLinger(150 * time.Microsecond)
+		}
 		go autoServer(w, stop, rng, kill)
 		var wg sync.WaitGroup
 		var wmu sync.Mutex
@@ -766,7 +777,10 @@ func cmdStress(path string, seed int64, rounds int) {
 					done := make(chan struct{})
 					go func() {
 						defer close(done)
-						switch lr.Intn(10) {
+						switch lr.Intn(11) {
+						case 10:
+							// a blocking exchange of its own: command line, continuation request, response, completion
+							w.cl.Authenticate(sasl.NewPlainClient("", "u", "p"))
 						case 8:
 							w.cl.Select("m", nil).Wait()
 						case 9:
